@@ -96,6 +96,17 @@ CLAIMED['C17'] = (
     'trusted; one known finding (F14); float rounding and the sampled correspondence trusted (DESIGN §5)',
     'Lean 4 proof over an exact rational model + hooked-run correspondence + paired runs')
 
+CLAIMED['C18'] = (
+    'Lean theorems, all of the form "for all x <= y": bottom-hole temperature is monotone in depth and in every gradient (Tmax cap included, via '
+    'BHT = min(temperature at depth, Tmax)), percentage-drawdown temperature is antitone in the rate at every time, the Ramey initial wellbore drop is '
+    'antitone in flow rate (proved at R from convexity of exp, same generic definition run at Float), every row of the regenerated drilling-cost table '
+    'is monotone on [500 m, 15 km] (decide +kernel), capital / O&M components and adjustment factors enter with non-negative coefficients, NPV is '
+    'antitone in cost, levelized cost is monotone in capital cost (models 1-2; model 3 PARTIAL under kappa >= 0 with a kernel-checked in-range '
+    'kappa < 0) and in O&M (all models); ordered pairs of real runs for every clause; known finding F15 (model 3 and kappa < 0).',
+    'kernel + propext/Classical.choice/Quot.sound; models tied by the C01/C03/C04/C05 checks; Ramey theorem needs a positive time function; Lean Float = C '
+    'library for the Ramey differential; tools/extract.py; sampled pairs trusted (DESIGN §5)',
+    'Lean 4 proof (corollaries over exact models, one real-analysis lemma, regenerated table) + ordered-pair runs')
+
 PENDING_REASON = 'check not built yet in this commit (work in progress; see DESIGN.md §9 for the order)'
 
 
